@@ -176,6 +176,16 @@ def coqchk(pid: str, timeout: int = 1800) -> tuple[bool, dict]:
     return ok, res
 
 
+def _avail_gb() -> int:
+    try:
+        for line in open("/proc/meminfo"):
+            if line.startswith("MemAvailable:"):
+                return int(line.split()[1]) // (1024 * 1024)
+    except OSError:
+        pass
+    return 48
+
+
 CASE_HEADER = "From Coq Require Import ZArith List Bool Arith.\nImport ListNotations.\n"
 
 
@@ -208,8 +218,17 @@ def run_cases(tag: str, preamble: str, items: list[str], check_fn: str, shard: i
         return f, r.returncode, r.stdout, r.stderr
 
     res = {"n": len(items), "bad": [], "errors": [], "files": len(files)}
-    with ThreadPoolExecutor(max_workers=min(16, len(files))) as ex:
-        for k, (f, rc, out, err) in enumerate(ex.map(one, files)):
+    # a shard of float-heavy cases can take 2 GB inside coqc: as many compilers at once as the memory that is available NOW carries (3 GB each), at most 16;
+    # a shard whose compiler was killed from outside (out of memory: rc -9 / 137) or timed out next to its neighbours is compiled once more on its own
+    workers = max(1, min(16, len(files), _avail_gb() // 3))
+    with ThreadPoolExecutor(max_workers=workers) as ex:
+        results = list(ex.map(one, files))
+    for k, (f, rc, out, err) in enumerate(results):
+        if rc in (-9, 137, 124):
+            res.setdefault("retried", []).append(f"{f.name}: rc={rc}")
+            results[k] = one(f)
+    if True:
+        for k, (f, rc, out, err) in enumerate(results):
             if rc != 0:
                 res["errors"].append(f"{f.name}: rc={rc} {err[-800:]}")
                 continue
